@@ -80,9 +80,18 @@ pub fn unhex(s: &str) -> Vec<u8> {
 }
 
 pub fn do_parse(script: &str, bytes: &[u8]) -> String {
+    do_parse_with(script, bytes, false)
+}
+
+pub fn do_parse_with(script: &str, bytes: &[u8], as_words: bool) -> String {
     let r = std::panic::catch_unwind(|| {
         let mut rec = Recorder::new(script);
-        let res = rspirv::binary::parse_bytes(bytes, &mut rec);
+        let res = if as_words {
+            let words: Vec<u32> = bytes.chunks_exact(4).map(|c| u32::from_le_bytes([c[0], c[1], c[2], c[3]])).collect();
+            rspirv::binary::parse_words(&words, &mut rec)
+        } else {
+            rspirv::binary::parse_bytes(bytes, &mut rec)
+        };
         let st = match res {
             Ok(()) => "OK".to_string(),
             Err(e) => state_text(&e),
@@ -122,6 +131,11 @@ pub fn serve(cases_path: &str, out_path: &str) {
                 let script = it.next().unwrap_or("-");
                 let bytes = unhex(it.next().unwrap_or("-"));
                 do_parse(script, &bytes)
+            }
+            Some("parsew") => {
+                let script = it.next().unwrap_or("-");
+                let bytes = unhex(it.next().unwrap_or("-"));
+                do_parse_with(script, &bytes, true)
             }
             Some("load") => crate::loadrun::do_load(&unhex(it.next().unwrap_or("-"))),
             _ => "BADCASE".into(),
